@@ -7,6 +7,7 @@ import (
 	"os"
 	"path/filepath"
 	"runtime/debug"
+	"sync"
 
 	logging "github.com/ipfs/go-log/v2"
 	"runtime/pprof"
@@ -18,30 +19,30 @@ import (
 type RunFunc func(prop, tier string, c *Chooser, r *Recorder) *Violation
 
 type ReplayFile struct {
-	Property  string     `json:"property"`
-	Sim       string     `json:"sim"`
-	Tier      string     `json:"tier"`
-	Seed      uint64     `json:"seed"`
-	Run       uint64     `json:"run"`
-	RunSeed   uint64     `json:"run_seed"`
-	Choices   []uint64   `json:"choices"`
-	Original  int        `json:"original_choices"`
-	Violation *Violation `json:"violation"`
-	Digest    string     `json:"digest"`
+	Property  string         `json:"property"`
+	Sim       string         `json:"sim"`
+	Tier      string         `json:"tier"`
+	Seed      uint64         `json:"seed"`
+	Run       uint64         `json:"run"`
+	RunSeed   uint64         `json:"run_seed"`
+	Choices   []uint64       `json:"choices"`
+	Original  int            `json:"original_choices"`
+	Violation *Violation     `json:"violation"`
+	Digest    string         `json:"digest"`
 	Faults    map[string]int `json:"faults"`
-	Trace     []string   `json:"trace"`
+	Trace     []string       `json:"trace"`
 	// Known is the list of known findings that was suppressed while this run was recorded;
 	// the replay applies the same list so that it is the same execution.
 	Known string `json:"known,omitempty"`
 }
 
 type ViolationReport struct {
-	Violation *Violation `json:"violation"`
-	Replay    string     `json:"replay"`
-	Run       uint64     `json:"run"`
-	Choices   int        `json:"choices"`
-	Original  int        `json:"original_choices"`
-	ShrinkRuns int       `json:"shrink_runs"`
+	Violation  *Violation `json:"violation"`
+	Replay     string     `json:"replay"`
+	Run        uint64     `json:"run"`
+	Choices    int        `json:"choices"`
+	Original   int        `json:"original_choices"`
+	ShrinkRuns int        `json:"shrink_runs"`
 }
 
 type Summary struct {
@@ -62,6 +63,10 @@ type Summary struct {
 	KnownHits   map[string]int    `json:"known_hits"`
 	InfraErrors []string          `json:"infra_errors"`
 	WallS       float64           `json:"wall_s"`
+	// SlowRuns lists runs that took more than 20 s of wall time ("run index: seconds").
+	SlowRuns []string `json:"slow_runs"`
+	// Abandoned counts runs that were still in progress when the budget (plus grace) ran out.
+	Abandoned int `json:"abandoned"`
 }
 
 type infraPanic struct {
@@ -262,6 +267,59 @@ func MainArgs(sim string, run RunFunc, args []string) int {
 		}
 		defer dlog.Close()
 	}
+	// Everything below that touches sum holds mu; the guard goroutine takes over (and ends the
+	// process) only while the main goroutine is inside a run, i.e. not holding mu.
+	var mu sync.Mutex
+	inRun, curIdx, runStart := false, uint64(0), time.Time{}
+	finish := func() int {
+		sum.WallS = time.Since(start).Seconds()
+		for d := range digests {
+			sum.Digests = append(sum.Digests, d)
+		}
+		for d := range nontriv {
+			sum.NonTrivial = append(sum.NonTrivial, d)
+		}
+		for d := range pathsigs {
+			sum.PathSigs = append(sum.PathSigs, d)
+		}
+		b, _ := json.Marshal(sum)
+		if *out != "" {
+			if err := os.WriteFile(*out, b, 0o644); err != nil {
+				fmt.Fprintln(os.Stderr, "cannot write summary:", err)
+				return 2
+			}
+		} else {
+			fmt.Println(string(b))
+		}
+		if len(sum.InfraErrors) > 0 {
+			fmt.Fprintln(os.Stderr, sum.InfraErrors[0])
+			return 2
+		}
+		if len(sum.Violations) > 0 {
+			return 1
+		}
+		return 0
+	}
+	go func() {
+		// A run still in progress well after the budget is given up: the worker must end in time.
+		// If that run has been going for more than five minutes it is reported (a hang); otherwise
+		// it was simply started late and is dropped.
+		time.Sleep(*budget + 150*time.Second)
+		for {
+			mu.Lock()
+			if inRun {
+				break
+			}
+			mu.Unlock()
+			time.Sleep(time.Second)
+		}
+		if el := time.Since(runStart); el > 5*time.Minute {
+			sum.InfraErrors = append(sum.InfraErrors, fmt.Sprintf("run %d seed %d has been running for %s and was abandoned (endless run?)", curIdx, *seed, el.Round(time.Second)))
+		} else {
+			sum.Abandoned++
+		}
+		os.Exit(finish())
+	}()
 	for i := 0; i < *maxRuns; i++ {
 		if time.Since(start) > *budget {
 			break
@@ -270,9 +328,18 @@ func MainArgs(sim string, run RunFunc, args []string) int {
 		rs := Mix3(*seed, sim+"/"+*prop, idx)
 		c := NewPRNGChooser(rs)
 		r := NewRecorder(300)
+		mu.Lock()
+		inRun, curIdx, runStart = true, idx, time.Now()
+		mu.Unlock()
 		v, infra := safeRun(run, *prop, *tier, c, r)
+		mu.Lock()
+		inRun = false
+		if dt := time.Since(runStart); dt > 20*time.Second && len(sum.SlowRuns) < 20 {
+			sum.SlowRuns = append(sum.SlowRuns, fmt.Sprintf("%d: %.0fs", idx, dt.Seconds()))
+		}
 		if infra != "" {
 			sum.InfraErrors = append(sum.InfraErrors, fmt.Sprintf("run %d seed %d: %s", idx, *seed, infra))
+			mu.Unlock()
 			break
 		}
 		sum.Runs++
@@ -315,41 +382,20 @@ func MainArgs(sim string, run RunFunc, args []string) int {
 			s["trace_tail"] = tr
 			sum.Samples = append(sum.Samples, s)
 		}
+		mu.Unlock()
 		if v != nil {
 			rep := reportViolation(sim, run, *prop, *tier, *seed, idx, rs, c.Rec, v, *repDir, *shrinkN, *shrinkT)
+			mu.Lock()
 			sum.Violations = append(sum.Violations, rep)
-			if len(sum.Violations) >= *maxViol {
+			n := len(sum.Violations)
+			mu.Unlock()
+			if n >= *maxViol {
 				break
 			}
 		}
 	}
-	sum.WallS = time.Since(start).Seconds()
-	for d := range digests {
-		sum.Digests = append(sum.Digests, d)
-	}
-	for d := range nontriv {
-		sum.NonTrivial = append(sum.NonTrivial, d)
-	}
-	for d := range pathsigs {
-		sum.PathSigs = append(sum.PathSigs, d)
-	}
-	b, _ := json.Marshal(sum)
-	if *out != "" {
-		if err := os.WriteFile(*out, b, 0o644); err != nil {
-			fmt.Fprintln(os.Stderr, "cannot write summary:", err)
-			return 2
-		}
-	} else {
-		fmt.Println(string(b))
-	}
-	if len(sum.InfraErrors) > 0 {
-		fmt.Fprintln(os.Stderr, sum.InfraErrors[0])
-		return 2
-	}
-	if len(sum.Violations) > 0 {
-		return 1
-	}
-	return 0
+	mu.Lock()
+	return finish()
 }
 
 func copyMap(m map[string]int) map[string]int {
